@@ -339,7 +339,7 @@ def cases(tier, seed):
         out.append(_case(f"{solver}:sph:numba:scalar", grid="sph", solver=solver, noise="scalar", backend="numba"))
         out.append(_case(f"{solver}:cart:numba:collection", grid="cart", solver=solver, noise="percomp", state="collection", backend="numba"))
     if not q:
-        out.append(_case("euler:cart:n=3:field-dependent", grid="cart", solver="euler", noise="fielddep", n=3, interp="stratonovich"))
+        out.append(_case("euler:cart:n=2:field-dependent", grid="cart", solver="euler", noise="fielddep", n=2, interp="stratonovich"))
     for c_ in out:
         if ":numba:" in c_["name"]:
             c_["validate_paths"] = 0  # the compiled generator cannot be fed the model's draws
